@@ -283,6 +283,32 @@ func genDecodedCase(rng *rand.Rand) fcase {
 	return c
 }
 
+// genManyRelations: a long-running stream: 1030-1400 DISTINCT relations (partitions, per-tenant schemas) pass
+// before the relations the list is about arrive.  Whatever a filter remembers about relations it has seen,
+// its verdict for a relation must not depend on how many others came before.
+func genManyRelations(rng *rand.Rand) fcase {
+	c := fcase{Whitelist: rng.Intn(2) == 0, Regex: rng.Intn(2) == 0, Mode: "many-relations"}
+	n := 1030 + rng.Intn(371)
+	c.Msgs = append(c.Msgs, fmsg{Op: "BEGIN"})
+	for i := 0; i < n; i++ {
+		c.Msgs = append(c.Msgs, fmsg{Op: "INSERT", Rel: fmt.Sprintf("tenant_%04d.orders", i)})
+		if i%200 == 199 {
+			c.Msgs = append(c.Msgs, fmsg{Op: "COMMIT"}, fmsg{Op: "BEGIN"})
+		}
+	}
+	for _, r := range []string{"public.secrets", "public.a", "public.events_p9999", "tenant_0003.orders", "public.secrets"} {
+		c.Msgs = append(c.Msgs, fmsg{Op: []string{"INSERT", "UPDATE", "DELETE"}[rng.Intn(3)], Rel: r})
+	}
+	c.Msgs = append(c.Msgs, fmsg{Op: "COMMIT"})
+	if c.Regex {
+		c.Tablelist = []string{`^public\.events_`, `^public\.secrets$`}
+	} else {
+		c.Tablelist = []string{"public.secrets", "public.passwords"}
+	}
+	c.Mode += map[bool]string{true: "-whitelist", false: "-blacklist"}[c.Whitelist] + map[bool]string{true: "-regex", false: ""}[c.Regex]
+	return c
+}
+
 func genFilterCase(rng *rand.Rand, adversarial bool) fcase {
 	if !adversarial && rng.Intn(4) == 0 {
 		return genDecodedCase(rng)
@@ -344,8 +370,11 @@ func init() {
 		})
 		for i := 0; i < n; i++ {
 			cases = append(cases, genFilterCase(rng, rng.Intn(5) == 0))
+			if i%150 == 149 { // drawn in between, two per 300
+				cases = append(cases, genManyRelations(rng))
+			}
 		}
-		rep.Rule = "corpus first, then seeded: 80% well-formed configurations (whitelist/blacklist x plain/regex, 0-3 items from pools of schema-qualified, quoted, multi-table TRUNCATE, empty, non-ASCII relations and near-misses; regexps anchored/unanchored/case-insensitive, the empty and the blank pattern; empty and blank entries in plain lists), 20% adversarial (regexps that do not compile -> nil *Regexp, regexp-looking items in plain lists). Streams: 1-4 transactions, 0-5 changes each, 10% lost COMMIT. Non-trivial: not pass-through and at least one change forwarded and one dropped (or a panic); distinct by (config, stream)."
+		rep.Rule = "corpus first, then seeded: 80% well-formed configurations (whitelist/blacklist x plain/regex, 0-3 items from pools of schema-qualified, quoted, multi-table TRUNCATE, empty, non-ASCII relations and near-misses; regexps anchored/unanchored/case-insensitive, the empty and the blank pattern; empty and blank entries in plain lists), 20% adversarial (regexps that do not compile -> nil *Regexp, regexp-looking items in plain lists). Streams: 1-4 transactions, 0-5 changes each, 10% lost COMMIT; one case per 150 is a long stream in which 1030-1400 distinct relations pass before the listed ones arrive. Non-trivial: not pass-through and at least one change forwarded and one dropped (or a panic); distinct by (config, stream)."
 		var sb strings.Builder
 		sb.WriteString("From Bifrost.model Require Import Base Filter.\nOpen Scope string_scope.\nDefinition cases : list fcase := [\n")
 		seen := map[string]bool{}
